@@ -248,10 +248,15 @@ def check_msg(m):
 
         from spacepackets.cfdp.lv import CfdpLv as Lv1
 
-        for spelled in ("/data/current/../archive", "a/../b", "../up", "dir/./file", "x//y", "/tmp/\u00fc/..", "plain.txt", ""):
+        for spelled in ("/data/current/../archive", "a/../b", "../up", "dir/./file", "x//y", "/tmp/\u00fc/..", "plain.txt", "", "/data/images/", "./x", "C:\\dir\\file.bin", "dir\\sub/x"):
             pth = pathlib.PurePosixPath(spelled)
             eq(devs, "from_path.pure_path", bytes(Lv1.from_path(pth).pack()), R.lv(str(pth).encode("utf-8")), f"path {spelled!r}")
             eq(devs, "from_path.str", bytes(Lv1.from_path(spelled).pack()), R.lv(spelled.encode("utf-8")), f"string {spelled!r}")
+            wpth = pathlib.PureWindowsPath(spelled)  # a name taken over from a ground system that spells paths the other way: str(path) it is
+            eq(devs, "from_path.pure_windows_path", bytes(Lv1.from_path(wpth).pack()), R.lv(str(wpth).encode("utf-8")), f"windows path {spelled!r}")
+            # DirectoryParams.from_paths with the names given as they are (plain strings, as the repository's own tests do)
+            dps = T.DirectoryParams.from_paths(spelled, "f" + spelled)
+            eq(devs, "from_paths.plain_strings", (bytes(dps.dir_path.pack()), bytes(dps.dir_file_name.pack())), (R.lv(spelled.encode("utf-8")), R.lv(("f" + spelled).encode("utf-8"))), f"strings {spelled!r}")
     if k == "put_request":
         from spacepackets.cfdp.lv import CfdpLv
         from spacepackets.util import ByteFieldGenerator
